@@ -159,6 +159,25 @@ func NewWorld(r *rand.Rand, spec WorldSpec) (*World, F) {
 		}
 		w.populate(n, atoms, quants, assign)
 	}
+	// half of the targets are instances of a second class as well (written before or after the first one), and one
+	// node is an instance of the second class only: a validation over that class has its own set of targets
+	extra := EX + fmt.Sprintf("X%d", spec.Base)
+	for _, n := range w.G.OfType(EX + fmt.Sprintf("T%d", spec.Base)) {
+		switch r.Intn(4) {
+		case 0:
+			n.Types = append(n.Types, extra)
+		case 1:
+			n.Types = append([]string{extra}, n.Types...)
+		}
+	}
+	{
+		n := w.newNode(fmt.Sprintf("X%d", spec.Base))
+		assign := map[int]bool{}
+		for _, a := range atoms {
+			assign[a] = r.Intn(2) == 0
+		}
+		w.populate(n, atoms, quants, assign)
+	}
 	// decoys: other class / no class; they fail most atoms but are not targets
 	d := w.newNode(fmt.Sprintf("D%d", spec.Base))
 	_ = d
